@@ -32,7 +32,11 @@ META = {
             "JSON column names as paths (a.b -> nested objects; Csvq.Model.JsonPath = lib/json Path.Parse + addPathValueToRowStructure): "
             "json_paths_roundtrip - paths none of which is a prefix of another: the nested record holds exactly the (path, value) pairs of the table's "
             "record and every value is found at its path; json_flat_names (names without '.' and backslash = the flat writer); counter-witnesses: `a`,`a.b` "
-            "refused, `a.b`,`a` and `a`,`a` write a duplicate key, `a..b` / `.a` / `a.` syntax errors, a backslash that starts a segment escapes nothing. "
+            "refused, `a.b`,`a` and `a`,`a` write a duplicate key, `a..b` / `.a` / `a.` syntax errors, a backslash that starts a segment escapes nothing; "
+            "refuse-or-spell for LISTS of names as a decision (Csvq.Json.pathsSpellable = every name a path, no path a prefix of another; "
+            "paths_spellable_iff): json_spellable_written - the lists it accepts are written with every value at its own path; "
+            "json_unparsable_refused - empty segments are refused; the wanted 'every other list is refused' does not hold for the code "
+            "(json_refuse_or_spell_counterexample: a prefix path AFTER the longer path, and duplicates, are written). "
             "Transcoding - every round-trip theorem carries over to bytes through ANY encoder/decoder pair with dec(enc s) = s (roundtrip_encoded, "
             "csv/ltsv/fixed/json_roundtrip_encoded; refused_encoded: nothing written iff the writer or the encoding refuses); real Lean models of UTF-8, "
             "UTF-8 with BOM (BOMOverride) and UTF-16 BE/LE with ExpectBOM / IgnoreBOM / UseBOM exactly as golang.org/x/text does them (incl. its "
@@ -41,7 +45,9 @@ META = {
             "abstract sound pair. "
             "Not proved, covered by correspondence / law checks only: pretty printing, the embedding of JSON-looking strings (modelled, not in the "
             "theorems), the Shift_JIS tables, fixed-length automatic positions outside the predicate (a heuristic), and the 'updated file keeps its "
-            "dialect' clause. "
+            "dialect' clause - checked as sequences: what csvq REPORTS for a table (SHOW FIELDS) after any sequence of changes and ALTER TABLE ... SET "
+            "in one transaction is the dialect the model's encoder is run with, the committed bytes are compared with it and a fresh process reads them "
+            "back under the reported attributes. "
             "REGENERATED from /repo on every run (extract/encfacts, go/ast -> Csvq/Gen/EncFacts.lean): the Quote decision of encodeCSV for record and "
             "header fields as Lean functions (gen_cell_quote_eq_model / gen_header_quote_eq_model: equal to the model's mustQuote for all inputs), "
             "jsonLineBreakDetector.scan / LineBreak translated statement by statement (gen_detector_first_line_break: first line break outside strings "
@@ -55,11 +61,16 @@ META = {
             "model Delimit = fixedlen.Delimiter.Delimit and model automatic-position loader = real loader on written, mutated and hand-laid-out texts "
             "(c02.fpos, c02.deca), model transcoders = text.Encode / text.Decode on generated texts, mutated encodings and byte soup for the seven Unicode "
             "encodings (c02.tenc, c02.tdec; law transcode:<ENC>:roundtrip), path-named JSON columns in the jenc stream (refusals included), "
+            "model-encode for (the table the statements must produce, the attributes csvq reports) = the file COMMITted after a sequence with "
+            "ALTER TABLE ... SET, the model's refuse-or-spell decision for lists of JSON path names = what the real encoder does (c02.jspell), "
             "plus the write-then-read law on the real code alone for all six formats",
     "design_ref": "DESIGN.md section 5, C02",
     "note": "trusted: Lean kernel (axioms propext, Classical.choice, Quot.sound only); harness + driver; golang.org/x/text transcoders and go-text "
             "encoding detection (enter as a parameter: the model sees the text after transcoding); strconv/time formatting inside ConvertFieldContents "
-            "(cell texts of non-strings are taken from the implementation); unicode.IsLetter / IsSpace tables",
+            "(cell texts of non-strings are taken from the implementation); unicode.IsLetter / IsSpace tables. "
+            "VERIF_C02_PENDING=1 switches on the generator cases of two defects of the unchanged tree that are reported but not yet repaired / recorded "
+            "(the session's colour flag reaches a pretty-printed JSON file: session_flag_changes_*; a JSON column name that is a prefix path of an "
+            "EARLIER column is written with a repeated key: c02.jspell, refuse_or_spell:*:conflicting_paths_written)",
     "technique": "Lean 4 machine-checked proof over a hand-written model of writer and reader + differential correspondence and direct write-then-read laws on the Go implementation",
 }
 
@@ -110,7 +121,15 @@ def run(run):
              "character soup: positions of fixedlen.Delimiter.Delimit = model, loaded table = model), transcoding (random texts over all planes incl. U+FEFF / "
              "U+FFFE / astral: bytes of text.Encode = model for UTF8, UTF8M, UTF16, UTF16BE/LE, UTF16BEM/LEM; text.Decode of the written bytes, of mutations "
              "and of byte soup with lone surrogates, BOMs, odd lengths, ill-formed UTF-8 = model; law transcode:<ENC>:roundtrip), JSON column names as "
-             "paths (prefixes of one another, duplicates, escapes, empty segments: written bytes or refusal = model), the commit histories (a COMMIT refused by an unspellable cell after "
+             "paths (prefixes of one another, duplicates, escapes, empty segments: written bytes or refusal = model; lists of names, both orders of every "
+             "conflict: spelled lossless or refused = the model's decision, op c02.jspell, law refuse_or_spell:<fmt>:*), the attribute sequences in ONE "
+             "transaction ({nothing, UPDATE, INSERT, DELETE, ALTER ADD, an earlier ALTER SET} x ALTER TABLE SET of every attribute - DELIMITER, "
+             "DELIMITER_POSITIONS, FORMAT, ENCODING, LINE_BREAK, HEADER, ENCLOSE_ALL, JSON_ESCAPE, PRETTY_PRINT - to every other value x {nothing, a "
+             "further UPDATE} x COMMIT on files of all six formats: the attributes SHOW FIELDS reports = those asked for; committed text = model "
+             "encoder on (expected table, reported attributes), its bytes = model transcoder; a fresh processor and the csvq binary load the bytes "
+             "under the reported attributes as that table; laws altered:<fmt>:*), terminal-only session flags (colour, width counting, statistics, "
+             "format / encoding / delimiter / positions / header of the result stream) x the same sequences, x tables CREATED in the session, x --out: "
+             "the same bytes as without the flag (laws session_flag_changes_committed_file / _created_file / _out_file), the commit histories (a COMMIT refused by an unspellable cell after "
              "more than 4 KiB of records, repair + DELETE, COMMIT again: committed bytes = those of a control run without the refused attempt; LTSV, "
              "fixed-length, CSV/TSV in Shift_JIS), then generated (incl. a share of refusal injections at random positions): "
              "tables of 0-50 rows x 1-6 columns, plus a size band of 280-700 records x 2-3 short columns around the loaders' prepared capacity "
